@@ -166,6 +166,19 @@ def make_pool():
     def fn(a=0):
         return a
 
+    def make_twin(i):
+        """distinct class objects with the same __module__ and __name__ (a class statement executed more than once);
+        their special-method sets differ"""
+        class Twin(object):
+            def __init__(self):
+                self.x = i
+        if i == 1:
+            Twin.__len__ = lambda self: 3
+        if i == 2:
+            Twin.__getitem__ = lambda self, k: k
+        return Twin
+    twins = [make_twin(i) for i in range(3)]
+
     thing = Thing()
     inst = [
         Entry("list", [1, 2], _callattr("append"), lambda o: tuple(o), lambda o, d: o[-1] == d),
@@ -195,6 +208,8 @@ def make_pool():
         Entry("exception-instance", ValueError("x"), _setattr, _obs_attr),
         Entry("fraction", fractions.Fraction(1, 2)),
         Entry("memoryview", memoryview(b"abc")),
+        Entry("twin-instance", twins[0](), _setattr, _obs_attr), Entry("twin-instance", twins[1](), _setattr, _obs_attr),
+        Entry("twin-instance", twins[2](), _setattr, _obs_attr), Entry("twin-instance", twins[0](), _setattr, _obs_attr),
         Entry("marker", Marker()), Entry("marker", Marker()), Entry("marker", Marker()), Entry("marker", Marker()),
         # boundary objects: each is exercised in a dedicated short history
         Entry("module-named-module", types.ModuleType("module"), _setattr, _obs_attr, None, True),
@@ -206,6 +221,8 @@ def make_pool():
         Entry("builtin-class", int), Entry("builtin-class", list), Entry("class", Thing, _setattr, _obs_attr),
         Entry("class", MyInt, _setattr, _obs_attr), Entry("enum-class", Color), Entry("namedtuple-class", NT),
         Entry("builtin-class", type), Entry("exception-class", ValueError), Entry("builtin-class", object),
+        Entry("twin-class", twins[0], _setattr, _obs_attr), Entry("twin-class", twins[1], _setattr, _obs_attr),
+        Entry("twin-class", twins[2], _setattr, _obs_attr),
         Entry("class-named-module", module, _setattr, _obs_attr, None, True),
     ]
     pool = []
@@ -487,6 +504,12 @@ def check_arrival(ctx, pr, sender, sent, got, case, path="x"):
     if owner_obj is not sent:
         ctx.violation("reference-to-wrong-object", case, observed=short(owner_obj), expected="the sent " + kind,
                       what="the proxy that arrived does not refer to the object that was sent")
+    # distinct objects have distinct proxies
+    for n, p in pr.held[rcv].items():
+        t = pr.target[rcv].get(n)
+        if p is got and t is not None and e is not None and t is not e:
+            ctx.violation("one-proxy-for-two-objects", case, observed="the live proxy of another %s" % t.kind, expected="a proxy of its own",
+                          what="an object (%s) arrived as the proxy that is alive for a different object" % kind)
     # one proxy per remote object while it is alive
     for n, p in pr.held[rcv].items():
         if pr.target[rcv].get(n) is e and e is not None and p is not got:
@@ -603,6 +626,8 @@ class Hist(object):
         mgot = pr.to_model(got, rcv, new)
         self.flag.hit = False
         check_arrival(self.flag, pr, side, real, got, case)
+        if self.flag.hit and "o" in spec and is_netref(got):
+            self.probe_wrong_reference(side, real, got, pr.pool[side][spec["o"]], case)
         pr.adopt(rcv, new)
         note_targets(pr, rcv, new)
         seen = {}
@@ -629,6 +654,27 @@ class Hist(object):
         if self.flag.hit:
             self.desync = True
         return got
+
+    def probe_wrong_reference(self, side, real, got, ent, case):
+        """the arrival was flagged: state the consequences in the property's own terms (hand the reference back; operate
+        through it).  The history ends here."""
+        pr, rcv = self.pr, (not side)
+        try:
+            pr.conn[rcv].sync_request(H_KEEP, got)
+            back = pr.sink[side].pop()
+            del pr.sink[side][:]
+            if back is not real:
+                self.viol("echo-not-original:another-object", case, observed=short(back), expected="the original %s" % ent.kind,
+                          what="a reference handed back to its owner is not the original object")
+            if ent.mut is not None:
+                ent.mut(pr.conn[rcv], got, 424242)
+                pr.settle()
+                if not ent.hit(ent.obj, 424242):
+                    self.viol("mutation-not-on-owner-object", case, observed=repr(self.safe_obs(ent))[:120], expected="effect of 424242",
+                              what="a change made through the reference is not visible on the owner's object (%s)" % ent.kind)
+        except Exception as ex:
+            self.viol("operation-through-proxy-fails:%s" % type(ex).__name__, case, observed=str(ex)[:200],
+                      expected="the reference works", what="using a reference that arrived for a %s raises" % ent.kind)
 
     def send_failed(self, side, real, spec, e, case):
         ctx, pr = self.ctx, self.pr
@@ -789,7 +835,9 @@ def gen_spec(r, h, side, depth, stats):
     if k < 0.78 or not held:
         pool = [e for e in pr.pool[side] if not e.probe]
         e = r.choice(pool)
-        if r.random() < 0.5:      # favour objects already lent (re-receive while alive)
+        if r.random() < 0.2:      # same-named classes and their instances, lent at overlapping times
+            e = r.choice([x for x in pool if x.kind.startswith("twin")])
+        elif r.random() < 0.5:    # favour objects already lent (re-receive while alive)
             lent = [x for x in pool if id(x.obj) in {id(s[0]) for s in pr.conn[side]._local_objects._dict.values()}]
             if lent:
                 e = r.choice(lent)
@@ -1033,6 +1081,25 @@ def probe_ops(idx, side=True):
             ["send", side, "arg", {"o": idx}], ["send", not side, "arg", {"h": 1}]]
 
 
+def twin_ops(ids, side, variant):
+    """two or three same-named objects lent at overlapping times: transfer A, transfer B, echo B, drop A, transfer B again
+    (next to C), operate through B's proxy, echo again, drop, re-receive"""
+    a, b, c = ids
+    O = lambda i: {"o": i}
+    S, R = side, (not side)
+    ops = [["send", S, "arg", O(a)], ["send", S, "arg" if variant % 2 == 0 else "ret", O(b)], ["send", R, "arg", {"h": 1}],
+           ["send", R, "ret", {"t": [{"h": 0}, {"h": 1}]}], ["drop", R, 0],
+           ["send", S, "ret" if variant % 2 == 0 else "arg", {"t": [O(b), O(c), {"t": [O(b)]}]}], ["mut", R, 1, 1000 + variant],
+           ["send", R, "arg", {"t": [{"h": 2}, {"h": 1}]}], ["send", S, "arg", O(a)], ["mut", R, 3, 2000 + variant], ["mut", R, 2, 3000 + variant],
+           ["send", R, "ret", {"t": [{"h": 3}, {"h": 1}, {"h": 2}]}], ["drop", R, 1], ["send", S, "arg", {"t": [O(c), O(b), O(a)]}],
+           ["send", R, "arg", {"t": [{"h": 4}, {"h": 3}, {"h": 2}]}]]
+    if variant >= 2:      # all three alive at once from the start, one message
+        ops = [["send", S, "arg", {"t": [O(a), O(b), O(c), O(a)]}], ["send", R, "ret", {"t": [{"h": 2}, {"h": 0}, {"h": 1}]}],
+               ["mut", R, 1, 4000 + variant], ["mut", R, 0, 5000 + variant], ["drop", R, 1], ["send", S, "ret", {"t": [O(b), O(c)]}],
+               ["send", R, "arg", {"h": 3}], ["mut", R, 3, 6000 + variant]]
+    return ops
+
+
 def count_history(ctx, h, stats):
     for op, o in zip(h.ops, h.obs):
         if op[0] == "send":
@@ -1060,8 +1127,10 @@ def run(ctx):
     ctx.coverage_extra["rule"] = (
         "random histories (<= 20 steps) on a real connection pair: send as argument / as result, echo of held proxies, re-sending of "
         "objects already lent, drop, operation through a proxy, forged packages at the end; values: boundary-biased plain values of every "
-        "shape (C04 generator), 45 pool objects per party (containers, functions, classes, modules, enum members, named tuples, subclass "
-        "instances, frozensets/slices holding objects), tuples nesting all of them up to depth 3; one dedicated history per pool object; "
+        "shape (C04 generator), 56 pool objects per party (containers, functions, classes, modules, enum members, named tuples, subclass "
+        "instances, frozensets/slices holding objects, three distinct SAME-NAMED classes and instances of them), tuples nesting all of them "
+        "up to depth 3; one dedicated history per pool object; 40 scripted histories lending same-named classes/instances at overlapping "
+        "times in both directions (and a 20% bias towards them in random histories); "
         "obtain/deliver on classic connections. A step is non-trivial unless it sends a single short plain value; distinct by the "
         "abstract operation text")
     stats = {}
@@ -1072,6 +1141,16 @@ def run(ctx):
     for idx in range(pool_n):
         h = replay_ops(ctx, probe_ops(idx, side=(idx % 2 == 0)))
         hists.append(h)
+    # same-named classes / instances of them, both directions, several orders
+    ref = make_pool()
+    tw_cls = [e.idx for e in ref if e.kind == "twin-class"]
+    tw_ins = [e.idx for e in ref if e.kind == "twin-instance"]
+    for ids in (tw_cls, tw_ins[:3], [tw_cls[1], tw_cls[2], tw_cls[0]], [tw_ins[0], tw_ins[3], tw_ins[1]], [tw_cls[0], tw_ins[0], tw_cls[1]]):
+        for side in (True, False):
+            for variant in range(4):
+                h = replay_ops(ctx, twin_ops(ids, side, variant))
+                ctx.count("history:same-named-classes")
+                hists.append(h)
     for i in range(n_hist):
         hists.append(gen_history(ctx, r, r.choice([3, 6, 10, 14, 20]), stats))
         if len(hists) >= 400:
